@@ -18,9 +18,10 @@ import OpusModel.Gen.SilkResampRom
   (implementation-defined in C, two's complement with gcc — "wraps by design"), `lshift32` goes through
   `opus_uint32`.  `silk_ADD32`/`silk_SUB32`/`silk_SMLABB` are plain C `+`/`-` on `opus_int32`
   (SigProc_FIX.h:465,469; macros.h:73): a signed overflow there would be undefined behaviour.  The model writes
-  them `add32`/`sub32`/`smlabb` = the unbounded result reduced by `wrap32` (what the compiled code computes), and
-  OpusProofs/SilkResampRange.lean proves for which of them the reduction is the identity for every reachable
-  state and all `opus_int16` inputs (so that the C code has no overflow there); the harness runs under UBSan.
+  them `add32`/`sub32`/`smlabb` = the unbounded result reduced by `wrap32` (what the compiled code computes).
+  OpusProofs/SilkResampRange.lean proves that the reduction is the identity for the `silk_SMLABB` sum of
+  IIR_FIR_INTERPOL on every `opus_int16` buffer (so the C code has no overflow there); for the all-pass / AR2
+  recursions on filter states no such bound is proved, and the harness runs under UBSan.
 
   Array accesses are checked: `window l i n` reads `l[i .. i+n)` and answers `.oob` when that leaves the array,
   `blit` writes a block and answers `.oob` likewise.  `.abort` = a `celt_assert` of the C code fires (the library
@@ -335,12 +336,16 @@ def matrixAt (m : List (List Int)) (i j : Int) : Res Int :=
     | none => .oob
   else .oob
 
-/-- `while( silk_SMULWW( invRatio_Q16, Fs_Hz_out ) < silk_LSHIFT32( Fs_Hz_in, up2x ) ) invRatio_Q16++` (:165-167).
-    The guard `inv < 2^31 - 1` is the `opus_int32` domain (the increment would overflow). -/
-def invLoop (inv fsOut target : Int) : Int :=
-  if inv < 2147483647 ∧ smulww inv fsOut < target then invLoop (inv + 1) fsOut target else inv
-termination_by (2147483647 - inv).toNat
-decreasing_by omega
+/-- `while( silk_SMULWW( invRatio_Q16, Fs_Hz_out ) < silk_LSHIFT32( Fs_Hz_in, up2x ) ) invRatio_Q16++` (:165-167),
+    by structural recursion on the number of increments still possible inside `opus_int32` (see `invLoop`). -/
+def invLoopF : Nat → Int → Int → Int → Int
+  | 0, inv, _, _ => inv
+  | k + 1, inv, fsOut, target => if smulww inv fsOut < target then invLoopF k (inv + 1) fsOut target else inv
+
+/-- The loop :165-167.  The counter handed to `invLoopF` is `INT32_MAX - invRatio_Q16`, exactly the number of
+    increments after which `invRatio_Q16++` would overflow `opus_int32`; it is not an approximation of the loop
+    (for the 30 accepted rate pairs the loop runs at most a few times — OpusProofs/SilkResampInit.lean). -/
+def invLoop (inv fsOut target : Int) : Int := invLoopF (2147483647 - inv).toNat inv fsOut target
 
 def isRate5 (r : Int) : Bool := r = 8000 || r = 12000 || r = 16000 || r = 24000 || r = 48000
 def isRate3 (r : Int) : Bool := r = 8000 || r = 12000 || r = 16000
@@ -380,6 +385,53 @@ def init (fsIn fsOut : Int) (forEnc : Bool) : Res RS :=
                        firFracs := fracs, fsIn := fsInK.toNat, fsOut := fsOutK.toNat, inputDelay := delay.toNat,
                        coefId := cid },
               sIIR := IIR.zero, sFIR := zeros szSFIRi32, delayBuf := zeros szDelayBuf }               -- memset :89
+    | .err e => .err e
+    | .oob => .oob
+    | .abort => .abort
+
+/-! ## silk_resampler_init in a build whose `celt_assert` is a no-op (neither ENABLE_HARDENING nor
+      ENABLE_ASSERTIONS): the `return -1` paths (:95, :103, :153) and the state they leave -/
+
+/-- What `silk_memset( S, 0, sizeof( silk_resampler_state_struct ) )` (:89) leaves. -/
+def RS.zero : RS :=
+  { cfg := { fn := 0, batchSize := 0, invRatio := 0, firOrder := 0, firFracs := 0, fsIn := 0, fsOut := 0,
+             inputDelay := 0, coefId := 0 },
+    sIIR := IIR.zero, sFIR := zeros szSFIRi32, delayBuf := zeros szDelayBuf }
+
+/-- Return value and state after silk_resampler_init without assertions.  A rejected rate (:95 / :103) returns
+    -1 right after the memset; "None available" (:153) returns -1 after inputDelay, Fs_in_kHz, Fs_out_kHz,
+    batchSize and resampler_function were stored (never reached for a pair that passed the rate check:
+    `OpusProofs.SilkResamp.selectFn_isSome`). -/
+def initRet (fsIn fsOut : Int) (forEnc : Bool) : Res (Int × RS) :=
+  let ok := if forEnc then isRate5 fsIn && isRate3 fsOut else isRate3 fsIn && isRate5 fsOut
+  if !ok then .ok (-1, RS.zero)
+  else
+    match init fsIn fsOut forEnc with
+    | .ok S => .ok (0, S)
+    | .abort =>
+      match matrixAt (if forEnc then delayMatrixEnc else delayMatrixDec) (rateId fsIn) (rateId fsOut) with
+      | .ok delay =>
+        .ok (-1, { cfg := { fn := useDownFIR, batchSize := (Int.tdiv fsIn 1000 * maxBatchSizeMs).toNat, invRatio := 0,
+                            firOrder := 0, firFracs := 0, fsIn := (Int.tdiv fsIn 1000).toNat,
+                            fsOut := (Int.tdiv fsOut 1000).toNat, inputDelay := delay.toNat, coefId := 0 },
+                   sIIR := IIR.zero, sFIR := zeros szSFIRi32, delayBuf := zeros szDelayBuf })
+      | _ => .oob
+    | .oob => .oob
+    | .err e => .err e
+
+/-! ## Call histories -/
+
+/-- Consecutive calls of silk_resampler on one state: the outputs of the calls, and the final state. -/
+def run (S : RS) : List (List Int) → Res (RS × List (List Int))
+  | [] => .ok (S, [])
+  | xs :: rest =>
+    match resampler S xs with
+    | .ok r =>
+      match run r.1 rest with
+      | .ok t => .ok (t.1, r.2 :: t.2)
+      | .err e => .err e
+      | .oob => .oob
+      | .abort => .abort
     | .err e => .err e
     | .oob => .oob
     | .abort => .abort
